@@ -222,6 +222,7 @@ MC_CIPHER_KNOB = dict(module="CipherObj", name="cipherobj_knob_PerCallIV", expec
 
 def run_c10(ctx, C):
     codec_common(ctx, C, [GEN_CIPHER], [], mcs=[MC_CIPHER, MC_CIPHER_KNOB], traces=("Trace_Cipher",))
+    C.stage_apalache_pad(ctx)
 
 
 GEN_TRANSFORMS = dict(module="Gen_Transforms", name="transforms", trace=False, timeout=3000)
